@@ -407,6 +407,61 @@ static std::string compare_written(UTAP::Document& doc, const WDoc& w, std::stri
                         kind = "select-label";
                         return ew + "select '" + e.select[k].get_name() + "' missing from the written label '" + all + "'";
                     }
+                // a binding over an integer range with literal bounds carries exactly those bounds in the written type
+                // (read off the text independently of the library's type printer): "name : ... [lo,hi]"
+                for (uint32_t k = 0; k < nsel; ++k) {
+                    auto ty = e.select[k].get_type();
+                    if (!ty.is(UTAP::Constants::RANGE))
+                        continue;
+                    // a range reached through a typedef name is rightly written as that name
+                    {
+                        auto bare = ty;
+                        while (!(bare == UTAP::type_t{}) && bare.size() == 1 && bare.is_prefix())
+                            bare = bare.get(0);
+                        if (bare == UTAP::type_t{} || bare.get_kind() != UTAP::Constants::RANGE)
+                            continue;
+                    }
+                    auto [lo, hi] = ty.get_range();
+                    if (lo.empty() || hi.empty() || lo.get_kind() != UTAP::Constants::CONSTANT || hi.get_kind() != UTAP::Constants::CONSTANT)
+                        continue;
+                    const std::string want = "[" + std::to_string(lo.get_value()) + "," + std::to_string(hi.get_value()) + "]";
+                    // the entry of this binding: from its name to the next top-level comma
+                    const std::string nm = e.select[k].get_name();
+                    size_t at = std::string::npos;
+                    for (size_t p = all.find(nm); p != std::string::npos; p = all.find(nm, p + 1)) {
+                        bool left_ok = p == 0 || !(std::isalnum((unsigned char)all[p - 1]) || all[p - 1] == '_');
+                        size_t q = p + nm.size();
+                        while (q < all.size() && std::isspace((unsigned char)all[q]))
+                            ++q;
+                        if (left_ok && q < all.size() && all[q] == ':') {
+                            at = q + 1;
+                            break;
+                        }
+                    }
+                    if (at == std::string::npos)
+                        continue;
+                    std::string entry;
+                    int depth = 0;
+                    for (size_t p = at; p < all.size(); ++p) {
+                        if (all[p] == '[')
+                            ++depth;
+                        else if (all[p] == ']')
+                            --depth;
+                        else if (all[p] == ',' && depth == 0)
+                            break;
+                        if (!std::isspace((unsigned char)all[p]))
+                            entry += all[p];
+                    }
+                    if (entry.find(want) == std::string::npos && entry.find('[') == std::string::npos &&
+                        !(lo.get_value() == -32768 && hi.get_value() == 32767)) {
+                        kind = "select-label";
+                        return ew + "select '" + nm + "' ranges over " + want + " but is written as '" + entry + "'";
+                    }
+                    if (entry.find('[') != std::string::npos && entry.find(want) == std::string::npos) {
+                        kind = "select-label";
+                        return ew + "select '" + nm + "' ranges over " + want + " but is written as '" + entry + "'";
+                    }
+                }
             }
             auto wg = label_tags(wtr.labels, "guard", n);
             if (wg != etags(e.guard)) {
